@@ -7,8 +7,11 @@ CONSTANTS
   MaxChunks = 2
   Kinds = {"rot", "flush"}
   Windows = "chunks"
+  MaxFaults = 0
+  MaxSyncFaults = 0
+  AdvanceOnFailure = FALSE
   ExactMax = 100
   TolDiv = 50
 SPECIFICATION Spec
-INVARIANTS TypeOK Contiguous NoEarlyRotation NoOverdueAdd EveryAddInExactlyOneChunk ReaderIsContract Emit
+INVARIANTS TypeOK Contiguous NoEarlyRotation NoOverdueAdd EveryAddInExactlyOneChunk StampCoversContent ReaderIsContract Emit
 CHECK_DEADLOCK FALSE
